@@ -8,6 +8,7 @@
               P <sid> <phase>            update_split_progress  (prep dual backfill cutover cleanup)
               C <sid>                    complete_split
               W <sid> <schema> <ts kind> row;row;...    Ingester::write  (kind i n o a)
+              Wf <sid> <schema> <ts kind> rows   the same write under a split-state read fault: refused, no-op
               F                          flush
               Hh <sid> row;row;...        register a historical chunk of old shard <sid>
               B <sid>                    ShardSplitter::run_backfill for the planted split of <sid>
@@ -91,6 +92,10 @@ let run_h (parts : string list) : string =
         | ["C"; sid] ->
             let (s, o) = hstep !st (HComplete (n_of_string sid)) in st := s; show_outcome o
         | ["F"] -> let (s, o) = hstep !st HFlush in st := s; show_outcome o
+        | ["Wf"; _; _; _; _] ->
+            (* a write during which reading the split state fails: refused before anything is
+               stored; no model step (judged by the harness oracle only) *)
+            "err9"
         | ["Hh"; sid; rows] ->
             let (s, o) = hstep !st (HHist (n_of_string sid, List.map parse_row (String.split_on_char ';' rows))) in
             st := s; show_outcome o
